@@ -3,7 +3,7 @@
    symbol/Merkle.py, BufferReader.py and the hashing half of SymbolFacade.py / NemFacade.py, instantiated with the constants
    and operators regenerated from /repo (Gen/MerkleOps.v) and with the Gallina SHA3-256 / Keccak-256; the right-hand
    specifications are fixed text. *)
-From Symv Require Import Base.Bytes Base.PyOps Sym.Keccak Sym.KeccakProofs Sym.Merkle Sym.MerkleProofs.
+From Symv Require Import Base.Bytes Base.PyOps Sym.Keccak Sym.KeccakProofs Sym.Merkle Sym.MerkleProofs Sym.MerkleProofs2.
 From Coq Require Import Lia.
 Open Scope Z_scope.
 
@@ -81,6 +81,44 @@ Proof.
         (conj (fun a b r => eq_refl) (conj (fun a => eq_refl) eq_refl))))).
 Qed.
 Print Assumptions merkle_tree_equations.
+
+(* the shape of the tree, as equations between roots: two leaves hash together; two balanced halves of 2^k leaves each give the
+   hash of the two half roots (so 2^(k+1) leaves form the full binary tree); an odd number (>= 3) of leaves gives the root of the
+   list with its last leaf repeated -- while a single leaf is its own root and is not hashed with itself; pairing is local to
+   even-length prefixes *)
+Theorem merkle_root_of_pair : forall a b, merkle_root_spec sha3_256 [a; b] = sha3_256 (a ++ b).
+Proof. exact (MerkleProofs2.root_pair sha3_256). Qed.
+Print Assumptions merkle_root_of_pair.
+
+Theorem merkle_root_of_balanced_halves : forall k l1 l2, length l1 = (2 ^ k)%nat -> length l2 = (2 ^ k)%nat ->
+  merkle_root_spec sha3_256 (l1 ++ l2) = sha3_256 (merkle_root_spec sha3_256 l1 ++ merkle_root_spec sha3_256 l2).
+Proof. exact (MerkleProofs2.root_balanced sha3_256). Qed.
+Print Assumptions merkle_root_of_balanced_halves.
+
+Theorem merkle_root_odd_duplicates_last : forall l x, Nat.even (length l) = true -> l <> [] ->
+  merkle_root_spec sha3_256 (l ++ [x]) = merkle_root_spec sha3_256 (l ++ [x; x]).
+Proof. exact (MerkleProofs2.root_dup_last sha3_256). Qed.
+Print Assumptions merkle_root_odd_duplicates_last.
+
+Theorem merkle_pairing_is_local : forall l1 l2, Nat.even (length l1) = true ->
+  pair_up sha3_256 (l1 ++ l2) = pair_up sha3_256 l1 ++ pair_up sha3_256 l2.
+Proof. exact (MerkleProofs2.pair_up_app_even sha3_256). Qed.
+Print Assumptions merkle_pairing_is_local.
+
+(* the builder itself, composed with the above: for 2^(k+1) leaves the loop returns the hash of the roots of the two halves *)
+Theorem merkle_loop_of_balanced_halves : forall k l1 l2, length l1 = (2 ^ k)%nat -> length l2 = (2 ^ k)%nat ->
+  merkle_final sha3_256 (l1 ++ l2) = Ok (sha3_256 (merkle_root_spec sha3_256 l1 ++ merkle_root_spec sha3_256 l2)).
+Proof.
+  exact (fun k l1 l2 H1 H2 => eq_trans (merkle_final_eq_tree sha3_256 (l1 ++ l2))
+                                       (f_equal Ok (MerkleProofs2.root_balanced sha3_256 k l1 l2 H1 H2))).
+Qed.
+Print Assumptions merkle_loop_of_balanced_halves.
+
+Example merkle_shape_nonvacuous :
+  length [[1]; [2]] = (2 ^ 1)%nat /\ Nat.even (length [[1]; [2]]) = true /\ [[1]; [2]] <> ([] : list bytes)
+  /\ merkle_final sha3_256 ([[1]; [2]] ++ [[3]]) = merkle_final sha3_256 ([[1]; [2]] ++ [[3]; [3]]).
+Proof. vm_compute. repeat split; discriminate. Qed.
+Print Assumptions merkle_shape_nonvacuous.
 
 Theorem embedded_transactions_hash_def : forall embedded,
   hash_embedded_transactions sha3_256 embedded = Ok (merkle_root_spec sha3_256 (map sha3_256 embedded)).
